@@ -172,7 +172,18 @@ static void decode_spec(struct tape *t, struct gm_spec *g)
 		if(t_prob(t, 170))
 			g->victim_nohb = 1; /* goal calibrated against the reference run, see rsv_case() */
 	}
-	if(c07 && g->dest_mode == 4 && g->n_lps >= 3 && t_prob(t, 128)) {
+	if(c07 && g->n_lps >= 3 && t_prob(t, 50)) {
+		/* "early terminated, still active": every LP satisfies its predicate after 1..3 events but keeps working for a long
+		 * time; LP 0 (no heartbeat, small goal) is completed by a rare drip that its sender may cancel; the next drip is far */
+		g->dest_mode = 4;
+		g->drip_k = (uint8_t[]){20, 60, 8, 120}[t_choice(t, 4)];
+		g->post_goal = (uint16_t[]){150, 60, 40}[t_choice(t, 3)];
+		for(unsigned i = 0; i < g->n_lps; i++) {
+			g->goal[i] = (uint16_t)(1 + t_choice(t, 3));
+			g->t0_zero[i] = 0;
+		}
+		g->victim_nohb = 2; /* 2: no calibration of the victim's goal */
+	} else if(c07 && g->dest_mode == 4 && g->n_lps >= 3 && t_prob(t, 128)) {
 		/* "starving victim": LP 0 has no heartbeat and a small goal; the event that completes it is a drip from another LP,
 		 * which that LP may cancel later; nothing else is pending for the victim then */
 		g->victim_nohb = 1;
@@ -188,8 +199,8 @@ static void decode_spec(struct tape *t, struct gm_spec *g)
 		g->goal[0] = 1;
 		g->t0_zero[0] = 1;
 	}
-	if(c07 || c08 || !strcmp(PROP, "C03") || !strcmp(PROP, "C04"))
-		g->post_goal = (uint16_t[]){0, 0, 25, 200, 0, 80}[t_choice(t, 6)]; /* LPs stay active after their predicate holds */
+	if((c07 || c08 || !strcmp(PROP, "C03") || !strcmp(PROP, "C04")) && g->victim_nohb != 2)
+		g->post_goal = (uint16_t[]){0, 0, 25, 100, 0, 50}[t_choice(t, 6)]; /* LPs stay active after their predicate holds */
 	g->init_sends = (uint8_t)t_choice(t, 4);
 	g->init_bufs = (uint8_t)t_choice(t, 4);
 	g->stop_lp = -1;
@@ -331,7 +342,7 @@ int rsv_case(const uint8_t *tape, size_t len, struct rsv_result *res)
 	decode_cfg(t, &RT.cfg, g);
 	struct rt_cfg *c = &RT.cfg;
 
-	if(g->victim_nohb && g->n_lps > 1) {
+	if(g->victim_nohb == 1 && g->n_lps > 1) {
 		/* calibration: let the victim run unbounded once, then give it a goal a few events below what it ever receives, so
 		 * that the event completing it is one of the last it gets */
 		uint16_t keep = g->goal[0];
@@ -347,8 +358,8 @@ int rsv_case(const uint8_t *tape, size_t len, struct rsv_result *res)
 	refexec_run(g, c->prng_seed, &RT.ref, 400000);
 	if(RT.ref.truncated || RT.ref.contract_breaches) {
 		res->verdict = RSV_DISCARD;
-		snprintf(res->msg, sizeof res->msg, "generator: model invalid (truncated=%d, contract breaches=%llu)", RT.ref.truncated,
-		    (unsigned long long)RT.ref.contract_breaches);
+		snprintf(res->msg, sizeof res->msg, "generator: model invalid (truncated=%d, contract breaches=%llu: %s)", RT.ref.truncated,
+		    (unsigned long long)RT.ref.contract_breaches, RT.ref.breach);
 		return res->verdict;
 	}
 	res->cls[K_EVENTS_REF] = RT.ref.total_events;
